@@ -41,6 +41,9 @@ const MAX_LIST_SIZE: usize = 10_000_000;
 const MAX_TUPLE_SIZE: usize = 10_000_000;
 const MAX_MAP_SIZE: usize = 1_000_000;
 const MAX_BINARY_SIZE: usize = 100_000_000;
+/// Deepest nesting of terms the decoders follow. The parsers are recursive, so the depth of the
+/// input must be bounded for the stack of a default-sized worker thread to suffice.
+const MAX_NESTING_DEPTH: usize = 256;
 
 type NomResult<'a, T> = IResult<&'a [u8], T, NomError<&'a [u8]>>;
 
@@ -106,7 +109,7 @@ pub fn decode_with_trailing(data: &[u8]) -> Result<(OwnedTerm, &[u8]), DecodeErr
 
 pub fn decode_raw_term(data: &[u8]) -> Result<OwnedTerm, DecodeError> {
     let cache = AtomCache::new();
-    let (remaining, term) = parse_term(data, &cache).map_err(from_nom_error)?;
+    let (remaining, term) = parse_term(data, &cache, 0).map_err(from_nom_error)?;
 
     if !remaining.is_empty() {
         return Err(DecodeError::TrailingData(remaining.len()));
@@ -124,7 +127,7 @@ pub fn decode_with_cache(
         parse_versioned_term_with_cache(data, &mut cache).map_err(from_nom_error)?;
 
     if !remaining.is_empty() {
-        let (new_remaining, payload) = parse_term(remaining, &cache).map_err(from_nom_error)?;
+        let (new_remaining, payload) = parse_term(remaining, &cache, 0).map_err(from_nom_error)?;
         Ok((term, Some((payload, new_remaining))))
     } else {
         Ok((term, None))
@@ -138,7 +141,7 @@ pub fn decode_with_atom_cache(
     let (remaining, term) = parse_versioned_term_with_cache(data, cache).map_err(from_nom_error)?;
 
     if !remaining.is_empty() {
-        let (new_remaining, payload) = parse_term(remaining, cache).map_err(from_nom_error)?;
+        let (new_remaining, payload) = parse_term(remaining, cache, 0).map_err(from_nom_error)?;
         if !new_remaining.is_empty() {
             return Err(DecodeError::TrailingData(new_remaining.len()));
         }
@@ -230,7 +233,7 @@ fn parse_versioned_term<'a>(input: &'a [u8], cache: &AtomCache) -> NomResult<'a,
     if version != VERSION {
         return Err(nom::Err::Failure(NomError::new(input, ErrorKind::Tag)));
     }
-    parse_term(input, cache)
+    parse_term(input, cache, 0)
 }
 
 fn parse_versioned_term_with_cache<'a>(
@@ -246,19 +249,23 @@ fn parse_versioned_term_with_cache<'a>(
     if tag == DIST_HEADER {
         parse_dist_header_with_cache(input, cache)
     } else {
-        parse_term_from_tag(input, tag, cache)
+        parse_term_from_tag(input, tag, cache, 0)
     }
 }
 
-fn parse_term<'a>(input: &'a [u8], cache: &AtomCache) -> NomResult<'a, OwnedTerm> {
+fn parse_term<'a>(input: &'a [u8], cache: &AtomCache, depth: usize) -> NomResult<'a, OwnedTerm> {
+    if depth > MAX_NESTING_DEPTH {
+        return Err(nom::Err::Failure(NomError::new(input, ErrorKind::TooLarge)));
+    }
     let (input, tag) = be_u8(input)?;
-    parse_term_from_tag(input, tag, cache)
+    parse_term_from_tag(input, tag, cache, depth)
 }
 
 fn parse_term_from_tag<'a>(
     input: &'a [u8],
     tag: u8,
     cache: &AtomCache,
+    depth: usize,
 ) -> NomResult<'a, OwnedTerm> {
     match tag {
         SMALL_INTEGER_EXT => parse_small_integer(input),
@@ -269,31 +276,31 @@ fn parse_term_from_tag<'a>(
         ATOM_UTF8_EXT => parse_atom_utf8(input),
         SMALL_ATOM_UTF8_EXT => parse_small_atom_utf8(input),
         SMALL_ATOM_EXT => parse_small_atom_latin1(input),
-        SMALL_TUPLE_EXT => parse_small_tuple(input, cache),
-        LARGE_TUPLE_EXT => parse_large_tuple(input, cache),
+        SMALL_TUPLE_EXT => parse_small_tuple(input, cache, depth),
+        LARGE_TUPLE_EXT => parse_large_tuple(input, cache, depth),
         NIL_EXT => Ok((input, OwnedTerm::Nil)),
         STRING_EXT => parse_string_ext(input),
-        LIST_EXT => parse_list(input, cache),
+        LIST_EXT => parse_list(input, cache, depth),
         BINARY_EXT => parse_binary(input),
         BIT_BINARY_EXT => parse_bit_binary(input),
         SMALL_BIG_EXT => parse_small_big(input),
         LARGE_BIG_EXT => parse_large_big(input),
-        MAP_EXT => parse_map(input, cache),
-        NEW_PID_EXT => parse_new_pid(input, cache),
-        NEWER_REFERENCE_EXT => parse_newer_reference(input, cache),
-        V4_PORT_EXT => parse_v4_port(input, cache),
-        EXPORT_EXT => parse_export_ext(input, cache),
-        NEW_FUN_EXT => parse_new_fun_ext(input, cache),
+        MAP_EXT => parse_map(input, cache, depth),
+        NEW_PID_EXT => parse_new_pid(input, cache, depth),
+        NEWER_REFERENCE_EXT => parse_newer_reference(input, cache, depth),
+        V4_PORT_EXT => parse_v4_port(input, cache, depth),
+        EXPORT_EXT => parse_export_ext(input, cache, depth),
+        NEW_FUN_EXT => parse_new_fun_ext(input, cache, depth),
         DIST_HEADER => {
             log::error!("DIST_HEADER should not appear nested in terms");
             Err(nom::Err::Failure(NomError::new(input, ErrorKind::Tag)))
         }
-        COMPRESSED_EXT => parse_compressed(input, cache),
-        REFERENCE_EXT => parse_reference_ext(input, cache),
-        PORT_EXT => parse_port_ext(input, cache),
-        PID_EXT => parse_pid_ext(input, cache),
-        NEW_REFERENCE_EXT => parse_new_reference_ext(input, cache),
-        LOCAL_EXT => parse_local_ext(input, cache),
+        COMPRESSED_EXT => parse_compressed(input, cache, depth),
+        REFERENCE_EXT => parse_reference_ext(input, cache, depth),
+        PORT_EXT => parse_port_ext(input, cache, depth),
+        PID_EXT => parse_pid_ext(input, cache, depth),
+        NEW_REFERENCE_EXT => parse_new_reference_ext(input, cache, depth),
+        LOCAL_EXT => parse_local_ext(input, cache, depth),
         ATOM_CACHE_REF => {
             let (input, cache_index) = be_u8(input)?;
             if let Some(atom) = cache.get(cache_index) {
@@ -319,7 +326,11 @@ fn parse_term_from_tag<'a>(
     }
 }
 
-fn parse_compressed<'a>(input: &'a [u8], cache: &AtomCache) -> NomResult<'a, OwnedTerm> {
+fn parse_compressed<'a>(
+    input: &'a [u8],
+    cache: &AtomCache,
+    depth: usize,
+) -> NomResult<'a, OwnedTerm> {
     let (rest, uncompressed_size) = be_u32(input)?;
 
     if uncompressed_size as usize > MAX_BINARY_SIZE {
@@ -339,7 +350,7 @@ fn parse_compressed<'a>(input: &'a [u8], cache: &AtomCache) -> NomResult<'a, Own
     }
     let consumed = decoder.total_in() as usize;
 
-    let owned_term = match parse_term(&decompressed, cache) {
+    let owned_term = match parse_term(&decompressed, cache, depth + 1) {
         Ok((remaining, term)) if remaining.is_empty() => term,
         _ => return Err(nom::Err::Failure(NomError::new(input, ErrorKind::Fail))),
     };
@@ -347,8 +358,12 @@ fn parse_compressed<'a>(input: &'a [u8], cache: &AtomCache) -> NomResult<'a, Own
     Ok((&rest[consumed..], owned_term))
 }
 
-fn parse_reference_ext<'a>(input: &'a [u8], cache: &AtomCache) -> NomResult<'a, OwnedTerm> {
-    let (input, node_term) = parse_term(input, cache)?;
+fn parse_reference_ext<'a>(
+    input: &'a [u8],
+    cache: &AtomCache,
+    depth: usize,
+) -> NomResult<'a, OwnedTerm> {
+    let (input, node_term) = parse_term(input, cache, depth + 1)?;
     let node = if let OwnedTerm::Atom(atom) = node_term {
         atom
     } else {
@@ -362,8 +377,12 @@ fn parse_reference_ext<'a>(input: &'a [u8], cache: &AtomCache) -> NomResult<'a, 
     ))
 }
 
-fn parse_port_ext<'a>(input: &'a [u8], cache: &AtomCache) -> NomResult<'a, OwnedTerm> {
-    let (input, node_term) = parse_term(input, cache)?;
+fn parse_port_ext<'a>(
+    input: &'a [u8],
+    cache: &AtomCache,
+    depth: usize,
+) -> NomResult<'a, OwnedTerm> {
+    let (input, node_term) = parse_term(input, cache, depth + 1)?;
     let node = if let OwnedTerm::Atom(atom) = node_term {
         atom
     } else {
@@ -377,8 +396,8 @@ fn parse_port_ext<'a>(input: &'a [u8], cache: &AtomCache) -> NomResult<'a, Owned
     ))
 }
 
-fn parse_pid_ext<'a>(input: &'a [u8], cache: &AtomCache) -> NomResult<'a, OwnedTerm> {
-    let (input, node_term) = parse_term(input, cache)?;
+fn parse_pid_ext<'a>(input: &'a [u8], cache: &AtomCache, depth: usize) -> NomResult<'a, OwnedTerm> {
+    let (input, node_term) = parse_term(input, cache, depth + 1)?;
     let node = if let OwnedTerm::Atom(atom) = node_term {
         atom
     } else {
@@ -393,9 +412,13 @@ fn parse_pid_ext<'a>(input: &'a [u8], cache: &AtomCache) -> NomResult<'a, OwnedT
     ))
 }
 
-fn parse_new_reference_ext<'a>(input: &'a [u8], cache: &AtomCache) -> NomResult<'a, OwnedTerm> {
+fn parse_new_reference_ext<'a>(
+    input: &'a [u8],
+    cache: &AtomCache,
+    depth: usize,
+) -> NomResult<'a, OwnedTerm> {
     let (input, len) = be_u16(input)?;
-    let (input, node_term) = parse_term(input, cache)?;
+    let (input, node_term) = parse_term(input, cache, depth + 1)?;
     let node = if let OwnedTerm::Atom(atom) = node_term {
         atom
     } else {
@@ -415,11 +438,15 @@ fn parse_new_reference_ext<'a>(input: &'a [u8], cache: &AtomCache) -> NomResult<
     ))
 }
 
-fn parse_local_ext<'a>(input: &'a [u8], cache: &AtomCache) -> NomResult<'a, OwnedTerm> {
+fn parse_local_ext<'a>(
+    input: &'a [u8],
+    cache: &AtomCache,
+    depth: usize,
+) -> NomResult<'a, OwnedTerm> {
     // Record the start position to capture the entire LOCAL_EXT encoding
     let start = input;
     let (input, _hash) = be_u64(input)?;
-    let (remaining, term) = parse_term(input, cache)?;
+    let (remaining, term) = parse_term(input, cache, depth + 1)?;
 
     // Calculate how many bytes the nested term consumed
     let nested_len = input.len() - remaining.len();
@@ -533,7 +560,7 @@ fn parse_dist_header_with_cache<'a>(
     let (input, num_atom_cache_refs) = be_u8(input)?;
 
     if num_atom_cache_refs == 0 {
-        return parse_term(input, cache);
+        return parse_term(input, cache, 0);
     }
 
     let flags_len = (num_atom_cache_refs as usize) / 2 + 1;
@@ -579,10 +606,14 @@ fn parse_dist_header_with_cache<'a>(
         }
     }
 
-    parse_term(input, cache)
+    parse_term(input, cache, 0)
 }
 
-fn parse_small_tuple<'a>(input: &'a [u8], cache: &AtomCache) -> NomResult<'a, OwnedTerm> {
+fn parse_small_tuple<'a>(
+    input: &'a [u8],
+    cache: &AtomCache,
+    depth: usize,
+) -> NomResult<'a, OwnedTerm> {
     let (input, arity) = be_u8(input)?;
     if arity as usize > MAX_TUPLE_SIZE {
         return Err(nom::Err::Failure(NomError::new(input, ErrorKind::TooLarge)));
@@ -591,7 +622,7 @@ fn parse_small_tuple<'a>(input: &'a [u8], cache: &AtomCache) -> NomResult<'a, Ow
     let mut elements = Vec::with_capacity(arity as usize);
 
     for _ in 0..arity {
-        let (new_remaining, term) = parse_term(remaining, cache)?;
+        let (new_remaining, term) = parse_term(remaining, cache, depth + 1)?;
         elements.push(term);
         remaining = new_remaining;
     }
@@ -599,7 +630,11 @@ fn parse_small_tuple<'a>(input: &'a [u8], cache: &AtomCache) -> NomResult<'a, Ow
     Ok((remaining, OwnedTerm::Tuple(elements)))
 }
 
-fn parse_large_tuple<'a>(input: &'a [u8], cache: &AtomCache) -> NomResult<'a, OwnedTerm> {
+fn parse_large_tuple<'a>(
+    input: &'a [u8],
+    cache: &AtomCache,
+    depth: usize,
+) -> NomResult<'a, OwnedTerm> {
     let (input, arity) = be_u32(input)?;
     if arity as usize > MAX_TUPLE_SIZE {
         return Err(nom::Err::Failure(NomError::new(input, ErrorKind::TooLarge)));
@@ -608,7 +643,7 @@ fn parse_large_tuple<'a>(input: &'a [u8], cache: &AtomCache) -> NomResult<'a, Ow
     let mut elements = Vec::with_capacity(bounded_capacity(arity as usize, input));
 
     for _ in 0..arity {
-        let (new_remaining, term) = parse_term(remaining, cache)?;
+        let (new_remaining, term) = parse_term(remaining, cache, depth + 1)?;
         elements.push(term);
         remaining = new_remaining;
     }
@@ -626,7 +661,7 @@ fn parse_string_ext(input: &[u8]) -> NomResult<'_, OwnedTerm> {
     Ok((input, OwnedTerm::List(elements)))
 }
 
-fn parse_list<'a>(input: &'a [u8], cache: &AtomCache) -> NomResult<'a, OwnedTerm> {
+fn parse_list<'a>(input: &'a [u8], cache: &AtomCache, depth: usize) -> NomResult<'a, OwnedTerm> {
     let (input, len) = be_u32(input)?;
     if len as usize > MAX_LIST_SIZE {
         return Err(nom::Err::Failure(NomError::new(input, ErrorKind::TooLarge)));
@@ -635,12 +670,12 @@ fn parse_list<'a>(input: &'a [u8], cache: &AtomCache) -> NomResult<'a, OwnedTerm
     let mut elements = Vec::with_capacity(bounded_capacity(len as usize, input));
 
     for _ in 0..len {
-        let (new_remaining, term) = parse_term(remaining, cache)?;
+        let (new_remaining, term) = parse_term(remaining, cache, depth + 1)?;
         elements.push(term);
         remaining = new_remaining;
     }
 
-    let (remaining, tail) = parse_term(remaining, cache)?;
+    let (remaining, tail) = parse_term(remaining, cache, depth + 1)?;
 
     if tail == OwnedTerm::Nil {
         Ok((remaining, OwnedTerm::List(elements)))
@@ -706,7 +741,7 @@ fn parse_large_big(input: &[u8]) -> NomResult<'_, OwnedTerm> {
     ))
 }
 
-fn parse_map<'a>(input: &'a [u8], cache: &AtomCache) -> NomResult<'a, OwnedTerm> {
+fn parse_map<'a>(input: &'a [u8], cache: &AtomCache, depth: usize) -> NomResult<'a, OwnedTerm> {
     let (input, arity) = be_u32(input)?;
     if arity as usize > MAX_MAP_SIZE {
         return Err(nom::Err::Failure(NomError::new(input, ErrorKind::TooLarge)));
@@ -715,8 +750,8 @@ fn parse_map<'a>(input: &'a [u8], cache: &AtomCache) -> NomResult<'a, OwnedTerm>
     let mut map = BTreeMap::new();
 
     for _ in 0..arity {
-        let (new_remaining, key) = parse_term(remaining, cache)?;
-        let (new_remaining, value) = parse_term(new_remaining, cache)?;
+        let (new_remaining, key) = parse_term(remaining, cache, depth + 1)?;
+        let (new_remaining, value) = parse_term(new_remaining, cache, depth + 1)?;
         map.insert(key, value);
         remaining = new_remaining;
     }
@@ -724,8 +759,8 @@ fn parse_map<'a>(input: &'a [u8], cache: &AtomCache) -> NomResult<'a, OwnedTerm>
     Ok((remaining, OwnedTerm::Map(map)))
 }
 
-fn parse_new_pid<'a>(input: &'a [u8], cache: &AtomCache) -> NomResult<'a, OwnedTerm> {
-    let (input, node_term) = parse_term(input, cache)?;
+fn parse_new_pid<'a>(input: &'a [u8], cache: &AtomCache, depth: usize) -> NomResult<'a, OwnedTerm> {
+    let (input, node_term) = parse_term(input, cache, depth + 1)?;
     let node = match node_term {
         OwnedTerm::Atom(a) => a,
         _ => return Err(nom::Err::Failure(NomError::new(input, ErrorKind::Tag))),
@@ -743,9 +778,13 @@ fn parse_new_pid<'a>(input: &'a [u8], cache: &AtomCache) -> NomResult<'a, OwnedT
     ))
 }
 
-fn parse_newer_reference<'a>(input: &'a [u8], cache: &AtomCache) -> NomResult<'a, OwnedTerm> {
+fn parse_newer_reference<'a>(
+    input: &'a [u8],
+    cache: &AtomCache,
+    depth: usize,
+) -> NomResult<'a, OwnedTerm> {
     let (input, len) = be_u16(input)?;
-    let (input, node_term) = parse_term(input, cache)?;
+    let (input, node_term) = parse_term(input, cache, depth + 1)?;
     let node = match node_term {
         OwnedTerm::Atom(a) => a,
         _ => return Err(nom::Err::Failure(NomError::new(input, ErrorKind::Tag))),
@@ -767,8 +806,8 @@ fn parse_newer_reference<'a>(input: &'a [u8], cache: &AtomCache) -> NomResult<'a
     ))
 }
 
-fn parse_v4_port<'a>(input: &'a [u8], cache: &AtomCache) -> NomResult<'a, OwnedTerm> {
-    let (input, node_term) = parse_term(input, cache)?;
+fn parse_v4_port<'a>(input: &'a [u8], cache: &AtomCache, depth: usize) -> NomResult<'a, OwnedTerm> {
+    let (input, node_term) = parse_term(input, cache, depth + 1)?;
     let node = match node_term {
         OwnedTerm::Atom(a) => a,
         _ => return Err(nom::Err::Failure(NomError::new(input, ErrorKind::Tag))),
@@ -783,20 +822,24 @@ fn parse_v4_port<'a>(input: &'a [u8], cache: &AtomCache) -> NomResult<'a, OwnedT
     ))
 }
 
-fn parse_export_ext<'a>(input: &'a [u8], cache: &AtomCache) -> NomResult<'a, OwnedTerm> {
-    let (input, module_term) = parse_term(input, cache)?;
+fn parse_export_ext<'a>(
+    input: &'a [u8],
+    cache: &AtomCache,
+    depth: usize,
+) -> NomResult<'a, OwnedTerm> {
+    let (input, module_term) = parse_term(input, cache, depth + 1)?;
     let module = match module_term {
         OwnedTerm::Atom(a) => a,
         _ => return Err(nom::Err::Failure(NomError::new(input, ErrorKind::Tag))),
     };
 
-    let (input, function_term) = parse_term(input, cache)?;
+    let (input, function_term) = parse_term(input, cache, depth + 1)?;
     let function = match function_term {
         OwnedTerm::Atom(a) => a,
         _ => return Err(nom::Err::Failure(NomError::new(input, ErrorKind::Tag))),
     };
 
-    let (input, arity_term) = parse_term(input, cache)?;
+    let (input, arity_term) = parse_term(input, cache, depth + 1)?;
     let arity = match arity_term {
         OwnedTerm::Integer(i) if (0..=255).contains(&i) => i as u8,
         _ => return Err(nom::Err::Failure(NomError::new(input, ErrorKind::Tag))),
@@ -808,32 +851,36 @@ fn parse_export_ext<'a>(input: &'a [u8], cache: &AtomCache) -> NomResult<'a, Own
     ))
 }
 
-fn parse_new_fun_ext<'a>(input: &'a [u8], cache: &AtomCache) -> NomResult<'a, OwnedTerm> {
+fn parse_new_fun_ext<'a>(
+    input: &'a [u8],
+    cache: &AtomCache,
+    depth: usize,
+) -> NomResult<'a, OwnedTerm> {
     let (input, _size) = be_u32(input)?;
     let (input, arity) = be_u8(input)?;
     let (input, uniq) = take(16usize)(input)?;
     let (input, index) = be_u32(input)?;
     let (input, num_free) = be_u32(input)?;
 
-    let (input, module_term) = parse_term(input, cache)?;
+    let (input, module_term) = parse_term(input, cache, depth + 1)?;
     let module = match module_term {
         OwnedTerm::Atom(a) => a,
         _ => return Err(nom::Err::Failure(NomError::new(input, ErrorKind::Tag))),
     };
 
-    let (input, old_index_term) = parse_term(input, cache)?;
+    let (input, old_index_term) = parse_term(input, cache, depth + 1)?;
     let old_index = match old_index_term {
         OwnedTerm::Integer(i) if i >= 0 => i as u32,
         _ => return Err(nom::Err::Failure(NomError::new(input, ErrorKind::Tag))),
     };
 
-    let (input, old_uniq_term) = parse_term(input, cache)?;
+    let (input, old_uniq_term) = parse_term(input, cache, depth + 1)?;
     let old_uniq = match old_uniq_term {
         OwnedTerm::Integer(i) if i >= 0 => i as u32,
         _ => return Err(nom::Err::Failure(NomError::new(input, ErrorKind::Tag))),
     };
 
-    let (input, pid_term) = parse_term(input, cache)?;
+    let (input, pid_term) = parse_term(input, cache, depth + 1)?;
     let pid = match pid_term {
         OwnedTerm::Pid(p) => p,
         _ => return Err(nom::Err::Failure(NomError::new(input, ErrorKind::Tag))),
@@ -842,7 +889,7 @@ fn parse_new_fun_ext<'a>(input: &'a [u8], cache: &AtomCache) -> NomResult<'a, Ow
     let mut remaining = input;
     let mut free_vars = Vec::with_capacity(bounded_capacity(num_free as usize, input));
     for _ in 0..num_free {
-        let (new_remaining, term) = parse_term(remaining, cache)?;
+        let (new_remaining, term) = parse_term(remaining, cache, depth + 1)?;
         free_vars.push(term);
         remaining = new_remaining;
     }
@@ -895,8 +942,23 @@ fn parse_term_borrowed<'a>(
     ctx: &mut ParsingContext,
 ) -> NomResult<'a, BorrowedTerm<'a>> {
     ctx.byte_offset = original_len - input.len();
+    if ctx.depth > MAX_NESTING_DEPTH {
+        return Err(nom::Err::Failure(NomError::new(input, ErrorKind::TooLarge)));
+    }
     let (input, tag) = be_u8(input)?;
 
+    ctx.depth += 1;
+    let result = parse_term_from_tag_borrowed(input, tag, original_len, ctx);
+    ctx.depth -= 1;
+    result
+}
+
+fn parse_term_from_tag_borrowed<'a>(
+    input: &'a [u8],
+    tag: u8,
+    original_len: usize,
+    ctx: &mut ParsingContext,
+) -> NomResult<'a, BorrowedTerm<'a>> {
     match tag {
         SMALL_INTEGER_EXT => parse_small_integer_borrowed(input),
         INTEGER_EXT => parse_integer_borrowed(input),
